@@ -26,7 +26,7 @@ ASSUMPTIONS = ["the cached name-server proxy of the gateway module is seeded wit
 REQUIRED_REACH = ["unauthorised_refused", "forwarded_ok", "meta_ok", "errors_500_ok", "oneway_ok", "non_call_requests", "pattern_mismatch_refused", "key_missing_refused", "lost_reply_once_ok"]
 SHARD_TIMEOUT = {"quick": 240, "thorough": 3000}
 KEY = "s3cret"
-OBJ_NAMES = ["http.calc", "http.calc2", "http.other", "Http.calc", "xhttp.calc", "other.obj", "http.", "http.a/b"]
+OBJ_NAMES = ["http.calc", "http.calc2", "http.other", "Http.calc", "xhttp.calc", "other.obj", "http.", "http.a/b", "xother.obj", "a.other.x"]
 PATTERNS = [r"http\.", "", r"^http\.calc$", r"http\.calc|other\.", r"http\.(calc|other)$", "http."]
 
 
